@@ -680,6 +680,7 @@ void DocumentBuilder::query_options(const char* key, const char* value)
 {
     if (key == nullptr) {
         handle_error(TypeException{"options tag found without attribute 'key'"});
+        return;
     }
     currentQuery->options.push_back(option_t{key, value == nullptr ? "" : value});
 }
@@ -732,6 +733,7 @@ void DocumentBuilder::expect_resource(const char* type, const char* value, const
     }
     if (value == nullptr) {
         handle_error(TypeException{"missing value of resource in expectation"});
+        return;
     }
     currentExpectation->resources.push_back(
         resource_t{type, value, unit == nullptr ? std::nullopt : std::make_optional(unit)});
@@ -751,6 +753,7 @@ void DocumentBuilder::model_option(const char* key, const char* value)
 {
     if (key == nullptr) {
         handle_error(TypeException{"options tag found without attribute 'key'"});
+        return;
     }
     document.get_options().emplace_back(key, value == nullptr ? "" : value);
 }
